@@ -118,7 +118,8 @@ func NewTagForwardReader(buf []byte) (TagForwardReader, error) {
 	lut[0] = 0
 	for idx := range highKeys {
 		lowContainer := seriesIDs.GetContainerAtIndex(idx)
-		lut[idx+1] = lowContainer.GetCardinality()
+		// NOTE: offset of next container = values of all previous containers
+		lut[idx+1] = lut[idx] + lowContainer.GetCardinality()
 	}
 	return &tagForwardReader{
 		buf:       buf[size:],
